@@ -4,8 +4,11 @@ C31 - Drawing primitives have their specified geometry (LINE, LINE ,B, LINE ,BF,
 Under contract (real source, display/graphics.py): Graphics._draw_line (Bresenham loop, checked by
 loop invariant for ALL endpoints), _draw_straight (loop invariant), _draw_box, _draw_box_filled,
 _pset_preset, point_ (two-argument form). "Unclipped screen": all coordinates lie on the screen and
-no VIEW is active; the pixel buffer is a recording stand-in behind the viewport interface
-(the viewport conversions themselves are C30).
+no VIEW is active; for the primitives the pixel buffer is a recording stand-in behind the viewport
+interface, and the real GraphicsViewPort is checked separately to hand every on-screen pixel,
+row, column or rectangle to the pixel buffer unchanged when no VIEW is set (clipping is C30).
+Graphics.line_ (no WINDOW) is checked to pass the right endpoints: STEP on the second coordinate
+is relative to the first endpoint, an omitted first coordinate is the graphics cursor.
 
 _draw_line(x0, y0, x1, y1), solid pattern. In the code's working coordinates (endpoints ordered top
 to bottom, axes swapped when steep; X the major axis, dX >= dY >= 0), with i iterations done and
@@ -248,6 +251,129 @@ def t_pset_point(E):
         E.prove(s16(r.value) == 5, 'and returns what the pixel buffer holds')
 
 
+# ---------------------------------------------------------------------------
+# the real viewport on an unclipped screen: what is stored is what was asked for
+
+class _Pixels(object):
+    """Pixel buffer stand-in behind the real GraphicsViewPort: records stores and loads."""
+    _pyvc_trusted = True
+    def __init__(self, width, height):
+        self.width, self.height = width, height
+        self.stores, self.loads = [], []
+    def __setitem__(self, index, data):
+        self.stores.append((index, data))
+    def __getitem__(self, index):
+        self.loads.append(index)
+        return 5
+
+
+def _rect_of(index):
+    ys, xs = index
+    def ends(c):
+        if isinstance(c, slice):
+            if c.step is not None:
+                raise Unsupported('stepped slice')
+            return c.start, c.stop
+        return c, c + 1
+    (ya, yb), (xa, xb) = ends(ys), ends(xs)
+    return ya, yb, xa, xb
+
+
+def t_viewport_unclipped(E, how, form):
+    """No VIEW: view[y, x] = a / view[y0:y1+1, x0:x1+1] = a reach the pixel buffer as exactly
+    that pixel / rectangle, for every on-screen position; view[y, x] reads exactly that pixel."""
+    Wd = E.int('width', 8, 1024)
+    Ht = E.int('height', 8, 1024)
+    px = _Pixels(Wd, Ht)
+    v = E.new(graphics.GraphicsViewPort, px)
+    if how == 'unset':
+        v._rect = (3, 3, 5, 5); v._active = True; v._absolute = True
+        E.call(v.unset)
+    xa = E.int('xa', 0, 1023); xb = E.int('xb', 0, 1023)
+    ya = E.int('ya', 0, 1023); yb = E.int('yb', 0, 1023)
+    E.assume(And(xa <= xb, xb < Wd, ya <= yb, yb < Ht))
+    if form == 'point':
+        index, want = (ya, xa), (ya, ya + 1, xa, xa + 1)
+    elif form == 'row':
+        index, want = (ya, slice(xa, xb + 1)), (ya, ya + 1, xa, xb + 1)
+    elif form == 'column':
+        index, want = (slice(ya, yb + 1), xa), (ya, yb + 1, xa, xa + 1)
+    else:
+        index, want = (slice(ya, yb + 1), slice(xa, xb + 1)), (ya, yb + 1, xa, xb + 1)
+    r = E.call(v.__setitem__, index, 7)
+    E.prove(not r.raised, 'never raises')
+    E.prove(len(px.stores) == 1, 'an on-screen pixel / rectangle is stored (one store)')
+    if len(px.stores) == 1:
+        got = _rect_of(px.stores[0][0])
+        E.prove(And(*[a == b for a, b in zip(got, want)]), 'exactly the pixels asked for reach the pixel buffer')
+        E.prove(px.stores[0][1] == 7, 'with the given attribute')
+    if form == 'point':
+        r = E.call(v.__getitem__, index)
+        E.prove(not r.raised and len(px.loads) == 1, 'one load')
+        if len(px.loads) == 1:
+            got = _rect_of(px.loads[0])
+            E.prove(And(*[a == b for a, b in zip(got, want)]), 'a pixel read is a read of exactly that pixel')
+
+
+# ---------------------------------------------------------------------------
+# the LINE statement: which endpoints reach the drawing primitives
+
+class _Arg(object):
+    _pyvc_trusted = True
+    def __init__(self, v):
+        self.v = v
+    def to_value(self):
+        return self.v
+
+
+def t_line_statement(E, first, step1, shape):
+    """LINE [[STEP](x0,y0)]-[STEP](x1,y1)[,[attr][,B[F]]] without WINDOW: the first endpoint is (x0,y0),
+    the graphics cursor plus (x0,y0) with STEP, or the graphics cursor when omitted; the second is
+    (x1,y1), or the FIRST endpoint plus (x1,y1) with STEP; the primitive for the shape is called once
+    with these endpoints, and the graphics cursor ends at the second endpoint."""
+    g = _graphics(E)
+    g._mode = _Mode()
+    g._window = None
+    g._window_bounds = None
+    g._values = values_env()
+    g._num_attr = 16
+    g._attr = 7
+    lx, ly = E.int('lastx', -2000, 2000), E.int('lasty', -2000, 2000)
+    g._last_point = (lx, ly)
+    g._draw_current = 1
+    X0, Y0 = E.int('x0', -2000, 2000), E.int('y0', -2000, 2000)
+    X1, Y1 = E.int('x1', -2000, 2000), E.int('y1', -2000, 2000)
+    calls = []
+    if E.mode == 'symbolic':
+        E.interp.contracts[values.to_single] = lambda I, args, kw: args[0]
+        E.interp.contracts[values.to_int] = lambda I, args, kw: args[0]
+        for name in ('_draw_line', '_draw_box', '_draw_box_filled'):
+            E.interp.contracts[getattr(graphics.Graphics, name)] = (lambda nm: lambda I, args, kw: calls.append((nm,) + tuple(args[1:6])))(name)
+    else:
+        raise Unsupported('symbolic only')
+    if first == 'omitted':
+        a0 = [None, None, None]
+        p0 = (lx, ly)
+    elif first == 'step':
+        a0 = [True, _Arg(X0), _Arg(Y0)]
+        p0 = (lx + X0, ly + Y0)
+    else:
+        a0 = [False, _Arg(X0), _Arg(Y0)]
+        p0 = (X0, Y0)
+    p1 = (p0[0] + X1, p0[1] + Y1) if step1 else (X1, Y1)
+    r = E.call(g.line_, iter(a0 + [step1, _Arg(X1), _Arg(Y1), 3, shape, None]))
+    E.prove(not r.raised, 'LINE succeeds')
+    E.prove(len(calls) == 1, 'one primitive is drawn')
+    if len(calls) != 1:
+        return
+    nm, cx0, cy0, cx1, cy1, attr = calls[0]
+    E.prove(nm == {None: '_draw_line', b'B': '_draw_box', b'BF': '_draw_box_filled'}[shape], 'the primitive of the shape')
+    E.prove(And(cx0 == p0[0], cy0 == p0[1]), 'first endpoint: given, cursor-relative with STEP, or the graphics cursor')
+    E.prove(And(cx1 == p1[0], cy1 == p1[1]), 'second endpoint: given, or relative to the FIRST endpoint with STEP')
+    E.prove(attr == 3, 'in the given attribute')
+    E.prove(And(g._last_point[0] == p1[0], g._last_point[1] == p1[1]), 'the graphics cursor ends at the second endpoint')
+
+
 TASKS = [
     Task('Graphics._draw_line (loop invariant)', t_draw_line, covers=('iteration', 'exit'), timeout_ms=60000),
     Task('Graphics._draw_line (bounded cross-check)', t_draw_line_native, bounded=True, samples=(300, 5000),
@@ -257,6 +383,10 @@ TASKS = [
     Task('Graphics._draw_box', t_draw_box),
     Task('Graphics._draw_box_filled', t_draw_box_filled),
     Task('PSET / POINT', t_pset_point),
+    Task('GraphicsViewPort (no VIEW): stores and loads are exact', t_viewport_unclipped,
+         cases=[{'how': h, 'form': f} for h in ('init', 'unset') for f in ('point', 'row', 'column', 'rectangle')]),
+    Task('Graphics.line_ (endpoints)', t_line_statement,
+         cases=[{'first': f, 'step1': s, 'shape': sh} for f in ('given', 'step', 'omitted') for s in (False, True) for sh in (None, b'B', b'BF')]),
 ]
 
 ASSUMPTIONS = [
